@@ -64,6 +64,10 @@ static void *gen_lookup (const char *name) {
 
 /* a helper native function MIR callee bodies may call (keeps values live across a call) */
 int64_t c06_helper (int64_t a, int64_t b) { return a * 3 + b; }
+/* a native function that calls back into MIR code (function `inner` of the module, through its public
+   address): the outer MIR->native call is still in progress while the nested MIR code makes its own calls */
+static void *c05_inner_addr;
+int64_t c05_reenter (int64_t x) { return ((int64_t (*) (int64_t)) c05_inner_addr) (x) + 1000; }
 /* memory alignment / validity observations made inside MIR callee bodies go to outs */
 
 static unsigned char first_out[192], first_outs[2048], first_pimg[256];
@@ -166,6 +170,7 @@ static void run_case (char *id, char *mode, char *engine, char *target, char *mi
   MIR_load_external (ctx, "outs", c05_outs);
   MIR_load_external (ctx, "helper", c06_helper);
   MIR_load_external (ctx, "memset", memset);
+  MIR_load_external (ctx, "reenter", c05_reenter);
   int gen_p = strncmp (engine, "gen", 3) == 0, lazy_p = strncmp (engine, "lazy", 4) == 0;
   int lazybb_p = strcmp (engine, "lazybb") == 0;
   char *dump = NULL;
@@ -194,6 +199,10 @@ static void run_case (char *id, char *mode, char *engine, char *target, char *mi
   } else {
     MIR_link (ctx, MIR_set_interp_interface, NULL);
     addr = f->addr;
+  }
+  {
+    MIR_item_t inner = find_func (ctx, "inner");
+    if (inner != NULL) c05_inner_addr = gen_p ? MIR_gen (ctx, inner) : inner->addr;
   }
   if (!c06) {
     /* a session: caller, caller1, caller2 ... run one after the other in the same context */
@@ -274,7 +283,10 @@ static void run_case (char *id, char *mode, char *engine, char *target, char *mi
       fflush (dump_f);
       const char *key = "MIR after forming prolog/epilog";
       char *q = dump, *last = NULL;
-      while (q != NULL && (q = strstr (q, key)) != NULL) last = q, q++;
+      /* the listing of `f` itself: the last one before "Code generation for f:" (other functions of the
+         module are generated too) */
+      char *fend = dump != NULL ? strstr (dump, "Code generation for f:") : NULL;
+      while (q != NULL && (q = strstr (q, key)) != NULL && (fend == NULL || q < fend)) last = q, q++;
       if (last != NULL) {
         char *end = strstr (last, "\n+++");
         size_t n = end != NULL ? (size_t) (end - last) : strlen (last);
